@@ -244,7 +244,7 @@ mutual
       -- `if not tight: if suppress: suppress = False` — i.e. the flag survives only in a tight list
       let st1 := { st with suppress := st.suppress && st.listTight }
       -- an item with nothing in it is still an item: its marker is written
-      if bs.isEmpty then (sep ++ rstrip st.pfx ++ ['\n'], { st1 with pfx := st.snd })
+      if bs.isEmpty then (sep ++ rstrip st.pfx ++ ['\n'], { st1 with pfx := st.snd, suppress := false })
       else
         let r := renderBlocks cfg st1 bs
         (sep ++ r.1, r.2)
@@ -267,7 +267,7 @@ mutual
     | .indented content =>
       (renderCodeLines st content [] [] false '`' 3,
        { st with skipBlank := false, pfx := st.snd, suppress := false })
-    | .hr => (st.pfx ++ "* * *\n".toList, { st with pfx := st.snd })
+    | .hr => (st.pfx ++ "* * *\n".toList, { st with pfx := st.snd, skipBlank := false, suppress := false })
     | .heading level cs _ =>
       let r0 := renderInlines cfg true [] cs
       let r := (unbreak r0.1, r0.2)
@@ -294,7 +294,8 @@ mutual
       let h := renderRow cfg st.acc head
       let d : Str := "| ".toList ++ joinWith " | ".toList (delims.map normalizeDelim) ++ " |\n".toList
       let b := renderRows cfg st.snd h.2 rows
-      (st.pfx ++ rowLine h.1 ++ st.snd ++ d ++ b.1, { st with acc := b.2, pfx := st.snd })
+      (st.pfx ++ rowLine h.1 ++ st.snd ++ d ++ b.1,
+       { st with acc := b.2, pfx := st.snd, skipBlank := false, suppress := false })
 
   def renderBlocks (cfg : RCfg) (st : RState) : List Block → Str × RState
     | [] => ([], st)
